@@ -63,6 +63,9 @@ type World struct {
 	pumpDone chan struct{}
 	sendWG   sync.WaitGroup
 
+	// NewSplit, when set, gives every new connection its Splitter ("ctl" / "xfer").
+	NewSplit func(kind string) Splitter
+
 	mu      sync.Mutex
 	conns   []*Conn
 	srvWG   sync.WaitGroup
@@ -328,6 +331,9 @@ func (w *World) Remove() { _ = os.RemoveAll(w.Sandbox) }
 // Connect opens a control connection from the given remote address ("ip:port").
 func (w *World) Connect(remote string) *Conn {
 	c := newConn(w, remote)
+	if w.NewSplit != nil {
+		c.Split = w.NewSplit("ctl")
+	}
 	w.srvWG.Add(1)
 	go func() {
 		defer w.srvWG.Done()
@@ -341,6 +347,9 @@ func (w *World) Connect(remote string) *Conn {
 // OpenTransfer opens a transfer-port connection.
 func (w *World) OpenTransfer(remote string) *Conn {
 	c := newConn(w, remote)
+	if w.NewSplit != nil {
+		c.Split = w.NewSplit("xfer")
+	}
 	w.srvWG.Add(1)
 	go func() {
 		defer w.srvWG.Done()
